@@ -48,6 +48,23 @@ def hull_err(pts, c, hw):
     return row
 
 
+def model_smooth_scores(ctx, pts, g, mode):
+    """Layer N: fit values (linear_fit.r2 of the documented spans, tied by C16) go to the Lean definition of the score"""
+    import kneeliverse.linear_fit as lf
+    from fractions import Fraction as F
+    x, y = pts[:, 0], pts[:, 1]
+    j, last = g[0], g[-1]
+    fit = []
+    for k in g:
+        left = lf.r2(x[j:k + 1], y[j:k + 1])
+        right = lf.r2(x[k:last], y[k:last])
+        fit.append(float((left + right) / 2.0 if mode == 'linear' else (left if mode == 'left' else right)))
+    if not all(math.isfinite(v) for v in fit):
+        return None
+    out = ctx.get_driver().call('smooth_scores', [core.rats(fit), core.rats([float(y[k]) for k in g])])
+    return [F(v) for v in core.parse_rats(out[0])] if out else []
+
+
 def ref_smooth_scores(pts, g, mode):
     """the ranking score of the property, computed independently of knee_ranking.smooth_ranking:
     (segment fit quality) x (relative height), where fit quality is the best-fit R2 (linear_fit.r2, tied by C16) of the
@@ -139,6 +156,12 @@ def one(ctx, pts, knees, link, t, mode, family):
             sc = [float(v) for v in kr.smooth_ranking(pts, np.array(g, dtype=int), getattr(kr.ClusterRanking, mode))] if len(g) > 1 else [0.0] * len(g)
             rows.append(sc)
             if len(g) > 1:
+                from fractions import Fraction as F
+                mq = model_smooth_scores(ctx, pts, g, mode)
+                if mq is not None:
+                    ctx.corr_checked += 1
+                    if len(mq) != len(sc) or any(math.isfinite(a) and abs(F(a) - b) > F(1, 10 ** 9) * (abs(b) + 1) for a, b in zip(sc, mq)):
+                        ctx.fail('correspondence', 'smoothScores (fit x relative height) vs smooth_ranking', f'knee_ranking.smooth_ranking[{mode}]', case, dict(cluster=g, impl=sc, model=[float(v) for v in mq]))
                 ref = ref_smooth_scores(pts, g, mode)
                 if any(math.isfinite(a) and math.isfinite(b) and abs(a - b) > 1e-12 * (abs(a) + abs(b)) + 1e-300 for a, b in zip(sc, ref)):
                     ctx.fail('predicate', 'ranking-score-is-fit-quality-times-relative-height', f'knee_ranking.smooth_ranking[{mode}]', case, dict(cluster=g, impl=sc, expected=ref))
@@ -186,6 +209,13 @@ def one(ctx, pts, knees, link, t, mode, family):
             ctx.tag('tie:equal-hull-errors(relational)')
     else:
         rows = [[float(v) for v in pp.rank_corners_triangle(pts, np.array(g, dtype=int))] for g in G]
+        from fractions import Fraction as F
+        for g, r in zip(G, rows):
+            k = g[0]
+            q = F(d.call('corner_tri', [core.rats(pts[k - 1]), core.rats(pts[k]), core.rats(pts[k + 1])])[0])
+            ctx.corr_checked += 1
+            if abs(F(r[0]) - q) > F(1, 10 ** 9) * (abs(q) + 1):
+                ctx.fail('correspondence', 'cornerTriQ vs rank_corners_triangle', 'postprocessing.rank_corners_triangle', case, dict(knee=k, impl=r[0], model=float(q)))
         if any(len(p) != 1 for p in per):
             ctx.fail('predicate', 'corner-variant-one-member-per-cluster', site, case, dict(out=out, clusters=G))
         else:
